@@ -995,13 +995,25 @@ def mentions(t, pred):
     return any(pred(x) for x in subterms(t))
 
 
-def err_variant(v):
+def same_agg_through_phi(fa, e, depth=0):
+    """a phi all of whose operands are the same field-less enum variant built in place (a value duplicated by jump threading) reads as that variant"""
+    if e.op != "phi" or fa is None or depth > 3:
+        return e
+    ops = [same_agg_through_phi(fa, w, depth + 1) for pb, w in fa.phi_operands(e)]
+    if ops and all(o.op == "agg" and not o.args[3] for o in ops) and len({(o.args[0], o.args[2]) for o in ops}) == 1:
+        return ops[0]
+    return e
+
+
+def err_variant(v, fa=None):
     """Name of the RtcmError variant built in place by an `Err(RtcmError::X)` term; None when the payload is not a variant built on the spot (an
     error handed on from another Result - a folded `?`, a match arm `Err(e) => Err(e)`): such a return adds no rejection of its own."""
     try:
         e = v.args[3][0]
     except Exception:
         return None
+    if fa is not None:
+        e = same_agg_through_phi(fa, e)
     if e.op == "agg" and len(e.args) >= 3 and isinstance(e.args[2], str):
         return e.args[2]
     return None
